@@ -8,8 +8,24 @@ Design template (all families):
 Every marker assignment writes a distinct constant, the variable v counts executions, so a statement
 that is skipped or executed twice changes an output.
 """
-import random
+import random, json, zlib
 from adl import *  # noqa
+
+
+def _as_match(th, el, sels):
+    """Some generated if statements are turned into match statements.  The decision is a function of the branch contents, not
+    of the generator's random stream, so adding the construct did not change the other designs of a seed."""
+    h = zlib.crc32(json.dumps([th, el], sort_keys=True).encode())
+    if h % 10 >= 3:
+        return None
+    sel = sels[(h >> 4) % len(sels)]
+    k1 = (h >> 8) % 4
+    k2 = (h >> 10) % 4                  # may repeat k1: the first case wins
+    cases = [(pint(k1), th)]
+    if (h >> 12) % 2 and el:
+        cases.append((pint(k2), el))
+        return match_(sel, cases, default=None if (h >> 13) % 2 else th)
+    return match_(sel, cases, default=el if el else None)
 
 U2, U3, BV4 = T("u", 2), T("u", 3), T("bv", 4)
 
@@ -78,7 +94,8 @@ def coro_block(rng, m, uses, depth, in_loop, budget):
         elif c < 0.72 and depth > 0:
             th = coro_block(rng, m, uses, depth - 1, in_loop, budget)
             el = coro_block(rng, m, uses, depth - 1, in_loop, budget) if rng.random() < 0.5 else []
-            out.append(if_(cond(rng), th, el))
+            cnd = cond(rng)
+            out.append(_as_match(th, el, [ref("v")]) or if_(cnd, th, el))
         elif c < 0.90 and depth > 0:
             body = coro_block(rng, m, uses, depth - 1, True, budget)
             wc = rng.choice([TRUE, ref("a"), ref("b"), bin_("ne", ref("v"), pint(3))])
@@ -303,7 +320,8 @@ def seq_stmt(rng, depth, budget):
     if depth > 0:
         th = seq_block(rng, depth - 1, budget)
         el = seq_block(rng, depth - 1, budget) if rng.random() < 0.6 else []
-        return [if_(seq_expr(rng, BIT, 1), th, el)]
+        cnd = seq_expr(rng, BIT, 1)
+        return [_as_match(th, el, [ref("d"), ref("s"), ref("v")]) or if_(cnd, th, el)]
     return [assign("next", "o", seq_expr(rng, U3))]
 
 
